@@ -984,3 +984,68 @@ Proof.
            destruct co; congruence.
     + unfold rm_res in Hs. destruct (rm v (s :: p) cpt) as [[prev v']|]; exact Hs.
 Qed.
+
+(* ---------- no panic for any single-segment removal (since /repo 3fccdc6: saturating subtraction) ---------- *)
+
+Lemma fold_flag_false {A B} (one : B -> A * bool) (u : A -> A -> A) l a :
+  (forall j, snd (one j) = false) ->
+  snd (fold_left (fun acc j => let '(sr, pk) := one j in (u (fst acc) sr, snd acc || pk)) l (a, false)) = false.
+Proof.
+  intros H. revert a. induction l as [|j l IH]; intros a; cbn; auto.
+  specialize (H j). destruct (one j) as [sr pk]. cbn in H. subst. cbn. apply IH.
+Qed.
+
+Lemma remove_inner_single_index_total k i cpt : snd (remove_inner k [SIndex i] cpt) <> CPanic.
+Proof.
+  cbn [remove_inner]. destruct (is_never k); [discriminate|].
+  destruct (arr_of k) as [c|]; [|discriminate].
+  assert (forall index,
+    snd (let '(c1, co) :=
+              match aget Nat.eqb (known c) index with
+              | Some child => let '(child', co) := remove_inner child [] cpt in
+                              (set_known c (aset Nat.compare (known c) index child'), co)
+              | None => (c, snd (remove_inner (at_path k [SIndex i]) [] cpt))
+              end in
+            let '(c2, co') := compact_a co c1 index cpt in
+            (Kind (prims_of k) (Some c2) (obj_of k), co')) <> CPanic) as Hpos.
+  { intros idx. destruct (aget Nat.eqb (known c) idx) as [child|].
+    - pose proof (remove_inner_nil_co child cpt) as Hco. destruct (remove_inner child [] cpt) as [child' co].
+      cbn [snd] in Hco. pose proof (compact_not_panic remove_shift cunion_a co
+        (set_known c (aset Nat.compare (known c) idx child')) idx cpt Hco) as H.
+      unfold compact_a. destruct (compact _ _ co _ idx cpt). exact H.
+    - pose proof (remove_inner_nil_co (at_path k [SIndex i]) cpt) as Hco.
+      pose proof (compact_not_panic remove_shift cunion_a _ c idx cpt Hco) as H.
+      unfold compact_a. destruct (compact _ _ _ c idx cpt). exact H. }
+  destruct (i <? 0)%Z; [|apply Hpos].
+  destruct (contains_any_defined (unknown_kind c)).
+  - destruct (largest_known_index c) as [l|]; [|cbn; destruct (Nat.leb _ _); discriminate].
+    match goal with |- snd (let '(c', panicked) := fold_left ?f ?l ?a in _) <> _ =>
+      pose proof (fold_flag_false
+        (fun j => match aget Nat.eqb (known c) j with
+                  | Some child =>
+                      let '(child', co) := remove_inner child [] cpt in
+                      let '(c2, co') := compact_a co (set_known c (aset Nat.compare (known c) j child')) j cpt in
+                      (c2, match co with CPanic => true | _ => false end)
+                  | None => (c, false)
+                  end) cunion_a l c) as Hf end.
+    cbn beta in Hf.
+    match type of Hf with ?P -> _ => assert P as HP end.
+    { intros j. destruct (aget Nat.eqb (known c) j) as [child|]; [|reflexivity].
+      pose proof (remove_inner_nil_co child cpt) as Hco. destruct (remove_inner child [] cpt) as [child' co].
+      cbn [snd] in Hco. destruct (compact_a co _ j cpt). cbn. destruct co; congruence. }
+    specialize (Hf HP).
+    match goal with |- snd (let '(c', panicked) := ?X in _) <> _ =>
+      assert (snd X = false) as Hf' by exact Hf; destruct X as [c' pk] end.
+    cbn [snd] in Hf'. rewrite Hf'. cbn. destruct (Nat.leb _ _); discriminate.
+  - destruct (get_positive_index c i); [apply Hpos|discriminate].
+Qed.
+
+Theorem remove_single_segment_no_panic k s cpt : snd (kremove k [s] cpt) = false.
+Proof.
+  unfold kremove.
+  destruct s as [f|i].
+  - pose proof (remove_inner_single_field_co k f cpt) as H. destruct (remove_inner k [SField f] cpt) as [k' co].
+    cbn [snd] in *. destruct co; congruence.
+  - pose proof (remove_inner_single_index_total k i cpt) as H. destruct (remove_inner k [SIndex i] cpt) as [k' co].
+    cbn [snd] in *. destruct co; congruence.
+Qed.
